@@ -1,4 +1,5 @@
 //! a5mon: runtime monitors for the 20 properties of a5-rs (see /verif/DESIGN.md).
+pub mod calls;
 pub mod gen;
 pub mod geom;
 pub mod model;
